@@ -187,6 +187,50 @@ theorem calc_gfp (g : G) (hC : Conv g) (ns : List Nat) (hcl : ∀ p c, c ∈ g.c
       have := hw x hx
       unfold Sys at this; simpa [hk] using this
 
+/-- **Resumed runs.**  Start the analysis from the labelling an earlier, possibly aborted, run left behind (any
+labelling satisfying the outer invariant — in particular `calcLab … pre top` for a prefix `pre` of an earlier
+visiting order): the result is again the greatest fixed point. -/
+theorem calc_gfp_from (g : G) (hC : Conv g) (ns : List Nat) (hcl : ∀ p c, c ∈ g.children p → c ∈ ns)
+    (const : Nat → Bool) (order : List Nat) (v0 : Lab) (h0 : OInv g const v0)
+    (hall : ∀ x, g.kind x = constK → x ∈ order ∨ const x = true) :
+    let v := calcLab g const (ns.length + 1) order v0
+    (∀ x, v x = Sys g const v x) ∧
+    (∀ w : Lab, (∀ x, w x = true → Sys g const w x = true) → le w v) := by
+  intro v
+  have hf := fold_inv g hC ns hcl const order v0 h0
+  have hv : v = order.foldl (ostep g const (ns.length + 1)) v0 := calcLab_eq g const _ order v0
+  rw [← hv] at hf
+  constructor
+  · intro x
+    unfold Sys
+    by_cases hk : g.kind x = constK
+    · simp only [hk, if_true]
+      apply hf.2 x hk
+      rcases hall x hk with h | h
+      · exact Or.inl h
+      · right
+        rcases h0.cst x hk with h1 | h1
+        · rw [h1, h]
+        · exact h1
+    · simp only [hk, if_false]
+      rcases hf.1.cons x with h | h
+      · exact absurd h hk
+      · exact h
+  · intro w hw
+    apply hf.1.bound w
+    · intro x hk hx
+      have := hw x hx
+      unfold Sys at this; simpa [hk] using this
+    · intro x hk hx
+      have := hw x hx
+      unfold Sys at this; simpa [hk] using this
+
+/-- the labelling a (complete or aborted) run leaves behind satisfies the outer invariant -/
+theorem oinv_calcLab (g : G) (hC : Conv g) (ns : List Nat) (hcl : ∀ p c, c ∈ g.children p → c ∈ ns)
+    (const : Nat → Bool) (pre : List Nat) : OInv g const (calcLab g const (ns.length + 1) pre top) := by
+  rw [calcLab_eq]
+  exact (fold_inv g hC ns hcl const pre top (oinv_top g const)).1
+
 /-- greatest post-fixed points are unique -/
 theorem gfp_unique (S : Lab → Nat → Bool) (v v' : Lab)
     (h1 : ∀ x, v x = S v x) (h1' : ∀ x, v' x = S v' x)
